@@ -383,6 +383,11 @@ def check_retry(ctx):
                         counter, mode = nm, 'up'
     ctx.check(len(rer) == 1 and counter is not None, 'C19.4', inst + ': the handler re-raises the caught exception (bare raise) exactly when the retries are used up '
               '(retries left == 0, or failures so far == n_retries)', detail, owner.loc(tev.node), owner.qualname, 'reraise')
+    # a handler that ends in `continue` goes on to the next attempt just like one that falls off its end (when the try is the last statement of the loop body)
+    for h_, hn_ in zip(ends, tev.node.handlers):
+        last_ = hn_.body[-1] if hn_.body else None
+        if isinstance(last_, ast.Continue) or (isinstance(last_, ast.If) and False):
+            h_['falls_through'] = True
     if counter is not None:
         cin = ev.as_num(log['entry'][counter])
         is_loopvar = bool(log.get('for')) and counter == log.get('var')
